@@ -99,6 +99,42 @@ func snapshotCheck(build func() Inst, st *Stats) *Viol {
 			return viol(p, "invariant", "two slices returned by %s() of %s share memory: writing to the second changed the first from %v to %v", so.Name, b.ContainerName(), c1, s1)
 		}
 	}
+	// (e) a SECOND instance of the same type and configuration: filling it, reading it and writing to
+	// its snapshots never reaches this container or the slices this container handed out earlier
+	// (package-level scratch storage, pooled buffers)
+	{
+		var snaps, copies []any
+		var names []string
+		for _, so := range b.Slices() {
+			s := so.Get()
+			snaps = append(snaps, s)
+			copies = append(copies, cloneSlice(s))
+			names = append(names, so.Name)
+		}
+		other := b.Fresh()
+		for step := 0; step < 4; step++ {
+			oo := other.Ops()
+			if len(oo) == 0 {
+				break
+			}
+			o := oo[(step*7)%len(oo)]
+			if v := safeStep(other, o, nil); v != nil {
+				break // the other instance's own failures are reported by its own search
+			}
+			for _, so := range other.Slices() {
+				zeroPoison(so.Get())
+			}
+			st.Nested["second_instance_interference_checks"]++
+			for i := range snaps {
+				if !sliceEq(snaps[i], copies[i]) {
+					return viol(p, "invariant", "%s: slice returned by %s() changed from %v to %v when ANOTHER %s was used (%s)", b.ContainerName(), names[i], copies[i], snaps[i], b.ContainerName(), other.Describe(o))
+				}
+			}
+			if k := b.Key(); k != k0 {
+				return viol(p, "invariant", "using another %s (%s) changed this one: %s -> %s", b.ContainerName(), other.Describe(o), clip(k0, 300), clip(k, 300))
+			}
+		}
+	}
 	// (d) GetSortedValues / GetSortedValuesFunc
 	if sc, ok := b.(interface{ CheckSorted(st *Stats) *Viol }); ok {
 		if v := sc.CheckSorted(st); v != nil {
@@ -269,6 +305,8 @@ func anyCmp(x, y any) int {
 			return a.P - b.P
 		}
 		return a.ID - b.ID
+	case OV:
+		return ovCmp(a, y.(OV))
 	case HX:
 		b := y.(HX)
 		if a.P != b.P {
